@@ -5,6 +5,7 @@ package c10
 import (
 	"fmt"
 	"math/bits"
+	"time"
 	"testing"
 
 	"github.com/markkurossi/mpc/gmw"
@@ -103,9 +104,9 @@ func runTriples(cs TripleCase) ev.Outcome {
 		sizes[i] = []int{8}
 	}
 	var got [][]tripleWords
-	exec := func() netResult {
+	exec := func(budget time.Duration) netResult {
 		res := make([][]tripleWords, n)
-		r := runNet(n, cs.Sched, sizes, watchdog, func(p int, nw *gmw.Network) (string, error) {
+		r := runNet(n, cs.Sched, sizes, budget, func(p int, nw *gmw.Network) (string, error) {
 			t := new(gmw.Triples)
 			for j, k := range cs.Sizes {
 				if j > 0 {
